@@ -56,6 +56,7 @@ namespace vu::pt
       n += bool( parse_tree::parse< rec, sel_fold >( in ) );
       n += bool( parse_tree::parse< chain< 2 >, sel_fold >( in ) );
       n += bool( parse_tree::parse< top >( in ) );           // store_all
+      if( const auto root = parse_tree::parse< top >( in ) ) { n += std::size_t( root->has_content() ); }      // instantiates basic_node::has_content (T-content)
       n += bool( parse_tree::parse< top, sel_fold >( in ) );
       n += bool( parse_tree::parse< top, parse_tree::node, only_sel, nothing, normal >( in, st ) );   // with an additional state
       n += bool( parse_tree::parse< top, parse_tree::node, parse_tree::internal::store_all, nothing, ctl_uw >( in, st ) );   // wrapped control with unwind: selected handlers
